@@ -2782,6 +2782,13 @@ def _num(v):
 
 @trait('Add', 'add')
 def _op_add(I, info, args):
+    da, db = deref(args[0]), deref(args[1])
+    if isinstance(da, Adt) and da.ty in ('BytePos', 'CharPos') and isinstance(db, Adt) and db.ty == da.ty:
+        x, y = da.fields[0], db.fields[0]
+        if isinstance(x, int) and isinstance(y, int):
+            return Adt(da.ty, None, [x + y])
+        x, y = I.z_pair(x, y)
+        return Adt(da.ty, None, [x + y])
     a, b = _num(args[0]), _num(args[1])
     if isinstance(a, int) and isinstance(b, int):
         r = a + b
